@@ -141,7 +141,7 @@ func serveSpec(org *Origin, path string, p *ocspPKI, leaf *Leaf, spec func(attem
 		// lifetime of a cached answer is bounded by the signed nextUpdate or the configured default duration
 		w.Header().Set("Cache-Control", "max-age=86400, public, no-transform, must-revalidate")
 		w.Header().Set("Expires", time.Now().Add(24*time.Hour).UTC().Format(http.TimeFormat))
-		w.Write(p.makeResponse(s, leaf, serial))
+		writeBody(w, p.makeResponse(s, leaf, serial))
 	})
 }
 
